@@ -18,4 +18,9 @@ DH = dict(
     cases=[dict(name="p%d_y%d" % (pb, yu), defs={"VF_PB": pb, "VF_YU": yu}) for pb, yu in ((9, 2), (9, 1), (8, 1), (1, 1), (9, 0))],
 )
 HARNESSES = [RSA]  # DH: no verdict within the cap yet (heap-backed bignums), see DESIGN.md
-PROPERTY = dict(level="model_checking", explanation="", bounds="", outside="", assumptions=[])
+PROPERTY = dict(level='model_checking',
+    claim='PKCS#1 v1.5 signature decoding accepts a recovered block iff it is the unique encoding 00 01 FF..FF 00 DigestInfo H (NULL or absent parameters) and returns exactly H; a signature whose length differs from the modulus length is refused before the key is used. The RSA operation is an arbitrary-block stub.',
+    bounds='modulus 96 bytes (thorough 128); SHA-1/256/384/512',
+    outside='RSA-PSS, ECDSA r/s range, DH public value range (harness exists, no verdict within the cap), point validation, the group arithmetic itself',
+    explanation='PKCS#1 v1.5 signature decoding accepts a recovered block iff it is the unique encoding 00 01 FF..FF 00 DigestInfo H (NULL or absent parameters) and returns exactly H; a signature whose length differs from the modulus length is refused before the key is used. The RSA operation is an arbitrary-block stub.',
+    assumptions=[])
